@@ -1,1 +1,208 @@
-/- C11 — property theorems (stub: not built yet). -/
+/-
+C11 — Reseating tempo changes onto measure lines keeps every change at its time.
+Property theorems (helper lemmas live in `Reamber/Lemmas/Reseat*.lean`).  Statements are about the executable
+model `reseat` / `reseatLoop` / `reseatStep` of `Reamber/Model/Timing.lean`, which the correspondence check ties to
+reamber/algorithms/timing/utils/reseat_bpm_changes_snap.py (+ from_bpm_changes_snap.py, TimingMap.py) on every
+run, and against the specification `Reamber/Spec/Reseat.lean` — the same Bool functions the harness evaluates on
+the implementation's output.
+
+Hypotheses (`Dom thr l`, = the harness's `dom`): the list is ascending, built through the constructors
+(positive bpm / metronome, position inside its measure), first change at measure 0 beat 0, the metronome is not
+"whole + tiny", **branch 2 never fires** (`noBeatExtendB`, open finding D16) and **no gap is shorter than the
+threshold** (`noTinyGapB`, open finding D16b).  `thr` is any threshold ≥ 0 (the code's is the double 0.001).
+-/
+import Reamber.Lemmas.ReseatProps
+import Reamber.Generated.Consts
+
+namespace Reamber.Timing
+
+/-- Tie to the source: the default `extend_threshold` and `MIN_TO_MSEC` the model uses are the ones the translator
+read from the code. -/
+theorem c11_consts_tie :
+    extendThreshold = Generated.extendThreshold ∧ minToMsec = Generated.minToMsec := by decide +kernel
+
+/-- the hypotheses of the theorems below, as the executable predicates of `Spec/Reseat.lean` -/
+def Dom (thr : Rat) (l : List BcSnap) : Prop :=
+  sortedSnaps l = true ∧ wfB l = true ∧ firstZeroB l = true ∧
+  noBeatExtendB thr l = true ∧ noTinyGapB thr l = true ∧ metOkB thr l = true
+
+/-- `Dom` without the first-change clause, unfolded into the shape the lemmas use -/
+theorem dom_unfold (thr : Rat) : ∀ (rest : List BcSnap) (a : BcSnap),
+    sortedSnaps (a :: rest) = true → wfB (a :: rest) = true → noBeatExtendB thr (a :: rest) = true →
+    noTinyGapB thr (a :: rest) = true → metOkB thr (a :: rest) = true →
+    AscWf a rest ∧ HypsL thr a.bpm a.met (distsOf a rest) ∧ (∀ b ∈ rest, 0 < b.met) := by
+  intro rest
+  induction rest with
+  | nil => intro a _ _ _ _ _; exact ⟨trivial, trivial, by simp⟩
+  | cons b t ih =>
+    intro a hs hw h2 ht hm
+    simp only [sortedSnaps, Bool.and_eq_true] at hs
+    simp only [wfB, List.all_cons, Bool.and_eq_true] at hw
+    simp only [noBeatExtendB, anyAdj, Bool.not_eq_true', Bool.or_eq_false_iff] at h2
+    simp only [noTinyGapB, anyAdj, Bool.not_eq_true', Bool.or_eq_false_iff] at ht
+    simp only [metOkB, List.all_cons, Bool.and_eq_true] at hm
+    obtain ⟨hwa, hwb, hwt⟩ := hw
+    have hwa' := hwa
+    have hwb' := hwb
+    simp only [wfOne, Bool.and_eq_true, decide_eq_true_eq] at hwa' hwb'
+    obtain ⟨⟨⟨⟨⟨habpm, hamet⟩, hasm⟩, _⟩, hab0⟩, habm⟩ := hwa'
+    obtain ⟨⟨⟨⟨⟨_, hbmet⟩, _⟩, _⟩, hbb0⟩, _⟩ := hwb'
+    obtain ⟨ihA, ihH, ihM⟩ := ih b hs.2 (by simp only [wfB, List.all_cons, Bool.and_eq_true]; exact ⟨hwb, hwt⟩)
+      (by simp only [noBeatExtendB, Bool.not_eq_true']; exact h2.2)
+      (by simp only [noTinyGapB, Bool.not_eq_true']; exact ht.2)
+      (by simp only [metOkB, List.all_cons, Bool.and_eq_true]; exact hm.2)
+    refine ⟨⟨⟨hamet, hasm, hs.1, hab0, habm, hbb0⟩, ihA⟩, ⟨?_, ihH⟩, ?_⟩
+    · have hle := hs.1
+      simp only [Snap.le, Snap.lt, Snap.eqv, Bool.or_eq_true, Bool.and_eq_true, decide_eq_true_eq] at hle
+      refine ⟨habpm, hamet, ?_, ?_, ?_, ?_⟩
+      · have := hm.1
+        simpa only [Bool.not_eq_true', Bool.and_eq_false_iff, decide_eq_false_iff_not, not_and_or] using this
+      · show 0 ≤ snapDist a.snap b.snap a.met
+        unfold snapDist
+        rcases hle with (h | ⟨h1, h2'⟩) | ⟨h1, h2'⟩
+        · have h1 : (1 : Rat) ≤ ((b.snap.measure - a.snap.measure : Int) : Rat) := by exact_mod_cast (by omega : (1 : Int) ≤ b.snap.measure - a.snap.measure)
+          nlinarith
+        · rw [h1]; simp; linarith
+        · rw [h1, h2']; simp
+      · have := h2.1
+        simp only [beatExtendAt, measDist, Bool.and_eq_false_iff, Bool.not_eq_false', Bool.and_eq_true,
+          ] at this
+        rintro ⟨hn, hp1, hp2⟩
+        rcases this with (h | h) | h
+        · exact hn ⟨of_decide_eq_true h.1, of_decide_eq_true h.2⟩
+        · exact (of_decide_eq_false h) hp1
+        · exact (of_decide_eq_false h) hp2
+      · have := ht.1
+        simp only [tinyGapAt, measDist, Bool.and_eq_false_iff] at this
+        rintro ⟨hp1, hp2⟩
+        rcases this with h | h
+        · exact (of_decide_eq_false h) hp1
+        · exact (of_decide_eq_false h) hp2
+    · intro x hx
+      rcases List.mem_cons.mp hx with rfl | hx
+      · exact hbmet
+      · exact ihM x hx
+
+/-- **Main theorem (all clauses of the property at once).**  For every list in `Dom`, every threshold ≥ 0, every
+initial offset `t0`: `reseat` does not raise, and its result `out`
+* has every tempo point on a measure line (`seatedB`),
+* is ascending (so `from_bpm_changes_snap`'s sort leaves it alone),
+* has between `|l|` and `2·|l| − 1` points,
+* contains the original changes in order — first on first, last on last, at most one extra point per original
+  interval — each at its own millisecond position *as obtained by integrating `out` itself*, and with its own bpm
+  wherever a whole number of measures follows (`interleaveB … true`; `tol = 0` is exact equality). -/
+theorem reseat_spec (thr : Rat) (hthr : 0 ≤ thr) (l : List BcSnap) (hd : Dom thr l) (t0 tol : Rat) (htol : 0 ≤ tol)
+    (bb : Bool) :
+    ∃ out, reseat l thr = .ok out ∧ seatedB out = true ∧ sortBcSnap out = out ∧
+      lengthOkB l.length out.length = true ∧
+      interleaveB tol bb (inPts t0 (sortBcSnap l)) (outPts t0 (sortBcSnap out)) = true := by
+  obtain ⟨hs, hw, hf, h2, ht, hm⟩ := hd
+  cases l with
+  | nil => simp [firstZeroB] at hf
+  | cons b0 rest =>
+    simp only [firstZeroB, Bool.and_eq_true, decide_eq_true_eq] at hf
+    obtain ⟨hA, hH, _⟩ := dom_unfold thr rest b0 hs hw h2 ht hm
+    obtain ⟨h, t, hseq, _, _, hseat, hsort, hl1, hl2, hint⟩ :=
+      seatFromD_spec thr hthr tol htol bb (distsOf b0 rest) 0 b0 t0 hH hf.1 hf.2
+    have hlenp : (distsOf b0 rest).length = rest.length := by
+      clear * -
+      induction rest generalizing b0 with
+      | nil => rfl
+      | cons b t ih => simp [distsOf, ih b]
+    refine ⟨h :: t, ?_, hseat, isort_sorted _ hsort, ?_, ?_⟩
+    · rw [reseat_eq_ref thr hthr b0 rest hs hA hH, hseq]
+    · rw [hlenp] at hl1 hl2
+      simp only [lengthOkB, List.length_cons, Bool.and_eq_true, decide_eq_true_eq] at hl1 hl2 ⊢
+      omega
+    · rw [isort_sorted _ hs, isort_sorted _ hsort, inPts_eq]; exact hint
+
+/-- every tempo point of the result lies on a measure line -/
+theorem reseat_seated (thr : Rat) (hthr : 0 ≤ thr) (l out : List BcSnap) (hd : Dom thr l) (h : reseat l thr = .ok out) :
+    seatedB out = true := by
+  obtain ⟨o, ho, hs, _⟩ := reseat_spec thr hthr l hd 0 0 (le_refl _) true
+  rw [ho] at h; cases h; exact hs
+
+/-- at most one extra point per original interval: `|l| ≤ |out| ≤ 2·|l| − 1` -/
+theorem reseat_length (thr : Rat) (hthr : 0 ≤ thr) (l out : List BcSnap) (hd : Dom thr l) (h : reseat l thr = .ok out) :
+    l.length ≤ out.length ∧ out.length + 1 ≤ 2 * l.length := by
+  obtain ⟨o, ho, _, _, hl, _⟩ := reseat_spec thr hthr l hd 0 0 (le_refl _) true
+  rw [ho] at h; cases h
+  simpa only [lengthOkB, Bool.and_eq_true, decide_eq_true_eq] using hl
+
+/-- every original change's millisecond position is a tempo point of the result (exact equality, `tol = 0`;
+the structure — in order, at most one extra point in between — is part of `interleaveB`) -/
+theorem reseat_keeps_times (thr : Rat) (hthr : 0 ≤ thr) (l out : List BcSnap) (hd : Dom thr l) (t0 : Rat)
+    (h : reseat l thr = .ok out) :
+    interleaveB 0 false (inPts t0 (sortBcSnap l)) (outPts t0 (sortBcSnap out)) = true := by
+  obtain ⟨o, ho, _, _, _, hi⟩ := reseat_spec thr hthr l hd t0 0 (le_refl _) false
+  rw [ho] at h; cases h; exact hi
+
+/-- … and it keeps the original bpm wherever a whole number of measures follows -/
+theorem reseat_keeps_bpm (thr : Rat) (hthr : 0 ≤ thr) (l out : List BcSnap) (hd : Dom thr l) (t0 : Rat)
+    (h : reseat l thr = .ok out) :
+    interleaveB 0 true (inPts t0 (sortBcSnap l)) (outPts t0 (sortBcSnap out)) = true := by
+  obtain ⟨o, ho, _, _, _, hi⟩ := reseat_spec thr hthr l hd t0 0 (le_refl _) true
+  rw [ho] at h; cases h; exact hi
+
+/-- the reseated list is what `from_bpm_changes_snap(…, reseat=False)` accepts unchanged, and no branch raises -/
+theorem reseat_total (thr : Rat) (hthr : 0 ≤ thr) (l : List BcSnap) (hd : Dom thr l) :
+    ∃ out, reseat l thr = .ok out ∧ sortBcSnap out = out := by
+  obtain ⟨o, ho, _, hs, _⟩ := reseat_spec thr hthr l hd 0 0 (le_refl _) true
+  exact ⟨o, ho, hs⟩
+
+/-- **Reseating an already seated list changes nothing** (hence the tempo timeline is unchanged). -/
+theorem reseat_id_of_seated (thr : Rat) (hthr : 0 ≤ thr) (l : List BcSnap) (hd : Dom thr l) (hseat : seatedB l = true) :
+    reseat l thr = .ok l := by
+  obtain ⟨hs, hw, hf, h2, ht, hm⟩ := hd
+  cases l with
+  | nil => simp [firstZeroB] at hf
+  | cons b0 rest =>
+    simp only [firstZeroB, Bool.and_eq_true, decide_eq_true_eq] at hf
+    obtain ⟨hA, hH, hM⟩ := dom_unfold thr rest b0 hs hw h2 ht hm
+    rw [reseat_eq_ref thr hthr b0 rest hs hA hH]
+    simp only [wfB, List.all_cons, Bool.and_eq_true] at hw
+    have hw0 := hw.1
+    simp only [wfOne, Bool.and_eq_true, decide_eq_true_eq] at hw0
+    simp only [seatedB, List.all_cons, Bool.and_eq_true, decide_eq_true_eq, List.all_eq_true] at hseat
+    rw [seatFromD_seated thr hthr rest 0 b0 hf.1 hf.2 hw0.1.1.1.1.2 (fun b hb => ⟨hseat.2 b hb, hM b hb⟩)]
+
+/-! ### the hypotheses are needed: counterexamples on the model (= the open findings, on the real code) -/
+
+/-- **D16.** Changes at beats 0 and 6.0002 (60 bpm, 4/4): branch 2 fires; the result is seated but the original
+change at 6000.2 ms is no tempo point of it (it integrates to 6000 ms). -/
+theorem reseat_beat_extend_counterexample :
+    let l : List BcSnap := [⟨60, 4, ⟨0, 0, some 4⟩⟩, ⟨120, 4, ⟨1, 20002 / 10000, some 4⟩⟩]
+    noBeatExtendB (1 / 1000) l = false ∧ cumTimes 0 l = [0, 30001 / 5] ∧
+    (reseat l (1 / 1000)).toOption.map (fun out =>
+        (seatedB out, interleaveB 0 false (inPts 0 l) (outPts 0 (sortBcSnap out)), cumTimes 0 (sortBcSnap out)))
+      = some (true, false, [0, 4000, 6000]) := by
+  decide +kernel
+
+/-- **D16b.** Two changes 1/500 beat apart (gap ≤ 0.001 measure): at the start of the list the model raises the
+`ValueError` class ("Failed to yield positive Snap"); later in the list the stretched point lands one measure
+*before* the current one and the change that was at 8000 ms ends up at 6001 ms. -/
+theorem reseat_tiny_gap_counterexample :
+    let l1 : List BcSnap := [⟨60, 4, ⟨0, 0, some 4⟩⟩, ⟨120, 4, ⟨0, 1 / 500, some 4⟩⟩]
+    let l2 : List BcSnap := [⟨60, 4, ⟨0, 0, some 4⟩⟩, ⟨120, 4, ⟨2, 0, some 4⟩⟩, ⟨90, 4, ⟨2, 1 / 500, some 4⟩⟩]
+    noTinyGapB (1 / 1000) l1 = false ∧ noTinyGapB (1 / 1000) l2 = false ∧
+    reseat l1 (1 / 1000) = .error .value ∧ cumTimes 0 l2 = [0, 8000, 8001] ∧
+    (reseat l2 (1 / 1000)).toOption.map (fun out => (sortedSnaps out, cumTimes 0 (sortBcSnap out)))
+      = some (false, [0, 4000, 6001, 6001]) := by
+  decide +kernel
+
+/-! ### non-vacuity: concrete members of `Dom`, exercising branch 1 (stretch + insert), branch 3 (both variants),
+a metronome change and a fractional metronome -/
+
+example : Dom (1 / 1000) [⟨60, 4, ⟨0, 0, some 4⟩⟩, ⟨120, 4, ⟨4, 4 / 10000, some 4⟩⟩, ⟨90, 3, ⟨5, 5 / 2, some 3⟩⟩,
+    ⟨200, 9 / 2, ⟨5, 11 / 4, some (9 / 2)⟩⟩, ⟨75, 4, ⟨9, 0, some 4⟩⟩] := by
+  unfold Dom; decide +kernel
+
+example : (reseat [⟨60, 4, ⟨0, 0, some 4⟩⟩, ⟨120, 4, ⟨4, 4 / 10000, some 4⟩⟩, ⟨90, 3, ⟨5, 5 / 2, some 3⟩⟩] (1 / 1000)).toOption
+    = some [⟨60, 4, ⟨0, 0, some 4⟩⟩, ⟨600000 / 10001, 4, ⟨3, 0, some 4⟩⟩, ⟨120, 4, ⟨4, 0, some 4⟩⟩,
+            ⟨1200000 / 6249, 4, ⟨5, 0, some 4⟩⟩, ⟨90, 3, ⟨6, 0, some 3⟩⟩] := by decide +kernel
+
+example : Dom (1 / 1000) [⟨120, 4, ⟨0, 0, some 4⟩⟩, ⟨60, 3, ⟨2, 0, some 3⟩⟩, ⟨240, 7, ⟨9, 0, some 7⟩⟩] ∧
+    seatedB [⟨120, 4, ⟨0, 0, some 4⟩⟩, ⟨60, 3, ⟨2, 0, some 3⟩⟩, ⟨240, 7, ⟨9, 0, some 7⟩⟩] = true := by
+  unfold Dom; decide +kernel
+
+end Reamber.Timing
